@@ -1,0 +1,39 @@
+//go:build verif
+
+package interp
+
+// Verification hook for property C29 (Run leaves the tree and Env untouched); add-only, compiled
+// only with -tags verif.  It exports the two ways the interpreter creates overlay environments
+// and the shape of an overlay chain (no addresses).
+
+import "mvdan.cc/sh/v3/expand"
+
+// VerifC29Overlay is the composite literal `&overlayEnviron{parent: parent, funcScope: funcScope}`
+// used by Runner.Reset, Runner.call and Runner.handlerCtx.
+func VerifC29Overlay(parent expand.Environ, funcScope bool) expand.WriteEnviron {
+	return &overlayEnviron{parent: parent, funcScope: funcScope}
+}
+
+// VerifC29NewOverlay is newOverlayEnviron, used by Runner.subshell.
+func VerifC29NewOverlay(parent expand.Environ, background bool) expand.WriteEnviron {
+	return newOverlayEnviron(parent, background)
+}
+
+// VerifC29Chain walks an environment chain from env outwards and reports, per overlay, its
+// funcScope flag, and what the chain ends in: "nil", or "root" for a non-overlay Environ.
+func VerifC29Chain(env expand.Environ) (funcScopes []bool, end string) {
+	for {
+		o, ok := env.(*overlayEnviron)
+		if !ok {
+			if env == nil {
+				return funcScopes, "nil"
+			}
+			return funcScopes, "root"
+		}
+		if o == nil {
+			return funcScopes, "nil"
+		}
+		funcScopes = append(funcScopes, o.funcScope)
+		env = o.parent
+	}
+}
